@@ -56,14 +56,16 @@ theorem C12_window_protected {c0 : Int} {evs : List QEv} {q' : Queue} {c' : Int}
   exact ⟨a, ha, h1, h2, by omega, by omega⟩
 
 /-- Every queued answer is on the wire in time: after any reachable state, an `add` executed at `c`
-is followed — whatever happens next — by a batch containing each of its records at some
-`s ∈ [c, c + agg + addl]`, unless the run stops before `c + agg + addl`. -/
+is followed — whatever happens next, **registry changes included** (`QEv.remove`: `async_remove_answers`, the repair of D5,
+called when a service is unregistered) — by a batch containing each of its records at some `s ∈ [c, c + agg + addl]`, unless
+the run stops before `c + agg + addl` or the record is withdrawn by such a change (`withdrawnIn post r`: then it must *not*
+go out any more, C08).  Records of other services are not affected by a withdrawal (`Queue.remove_keeps`). -/
 theorem C12_on_wire {p : QP} (hp : p.ok) {c0 : Int} {pre : List QEv} {q1 : Queue} {c1 : Int} {outs1 : List (Int × Dict)}
     (hpre : Run p {} c0 pre q1 c1 outs1)
     {c now draw : Int} {answers : Dict} {post : List QEv} {q' : Queue} {c' : Int} {outs : List (Int × Dict)}
     (hrun : Run p q1 c1 (.add c now draw answers :: post) q' c' outs) :
     ∀ r ∈ answers.keys,
-      (∃ o ∈ outs, r ∈ o.2.keys ∧ c ≤ o.1 ∧ o.1 ≤ c + p.agg + p.addl) ∨ c' ≤ c + p.agg + p.addl := by
+      (∃ o ∈ outs, r ∈ o.2.keys ∧ c ≤ o.1 ∧ o.1 ≤ c + p.agg + p.addl) ∨ c' ≤ c + p.agg + p.addl ∨ withdrawnIn post r := by
   intro r hr
   have hI1 := (hpre.safe hp [] (QInv.init p c0)).1
   cases hrun with
@@ -71,34 +73,37 @@ theorem C12_on_wire {p : QP} (hp : p.ok) {c0 : Int} {pre : List QEv} {q1 : Queue
     obtain ⟨hI2, _⟩ := hI1.step hp he
     obtain ⟨g', hg', hr', hb⟩ := Queue.add_has p q1 hI1 c now draw he.1 answers hr
     have htimes := hrest.times
-    rcases hrest.live hp _ hI2 r (c + p.agg + p.addl) ⟨g', hg', hr', by omega⟩ with ⟨o, ho, h1, h2⟩ | ⟨g, hg, _, hD⟩
+    rcases hrest.live hp _ hI2 r (c + p.agg + p.addl) ⟨g', hg', hr', by omega⟩ with ⟨o, ho, h1, h2⟩ | ⟨g, hg, _, hD⟩ | hw
     · exact Or.inl ⟨o, by simpa [Queue.stepQ] using ho, h1, htimes.2 o ho, h2⟩
     · have := (hrest.safe hp _ hI2).1.not_late hg
-      exact Or.inr (by omega)
+      exact Or.inr (Or.inl (by omega))
+    · exact Or.inr (Or.inr hw)
 
 /-- ... within 500 ms for the aggregation queue -/
 theorem C12_on_wire_aggregate {c0 : Int} {pre : List QEv} {q1 : Queue} {c1 : Int} {outs1 : List (Int × Dict)}
     (hpre : Run outQP {} c0 pre q1 c1 outs1)
     {c now draw : Int} {answers : Dict} {post : List QEv} {q' : Queue} {c' : Int} {outs : List (Int × Dict)}
     (hrun : Run outQP q1 c1 (.add c now draw answers :: post) q' c' outs) :
-    ∀ r ∈ answers.keys, (∃ o ∈ outs, r ∈ o.2.keys ∧ c ≤ o.1 ∧ o.1 ≤ c + 500) ∨ c' ≤ c + 500 := by
+    ∀ r ∈ answers.keys, (∃ o ∈ outs, r ∈ o.2.keys ∧ c ≤ o.1 ∧ o.1 ≤ c + 500) ∨ c' ≤ c + 500 ∨ withdrawnIn post r := by
   intro r hr
   have e1 := outQP_addl; have e2 := outQP_agg
-  rcases C12_on_wire outQP_ok hpre hrun r hr with ⟨o, ho, h1, h2, h3⟩ | h
+  rcases C12_on_wire outQP_ok hpre hrun r hr with ⟨o, ho, h1, h2, h3⟩ | h | h
   · exact Or.inl ⟨o, ho, h1, h2, by omega⟩
-  · exact Or.inr (by omega)
+  · exact Or.inr (Or.inl (by omega))
+  · exact Or.inr (Or.inr h)
 
 /-- ... within 1.2 s for the protected queue -/
 theorem C12_on_wire_protected {c0 : Int} {pre : List QEv} {q1 : Queue} {c1 : Int} {outs1 : List (Int × Dict)}
     (hpre : Run delayQP {} c0 pre q1 c1 outs1)
     {c now draw : Int} {answers : Dict} {post : List QEv} {q' : Queue} {c' : Int} {outs : List (Int × Dict)}
     (hrun : Run delayQP q1 c1 (.add c now draw answers :: post) q' c' outs) :
-    ∀ r ∈ answers.keys, (∃ o ∈ outs, r ∈ o.2.keys ∧ c ≤ o.1 ∧ o.1 ≤ c + 1200) ∨ c' ≤ c + 1200 := by
+    ∀ r ∈ answers.keys, (∃ o ∈ outs, r ∈ o.2.keys ∧ c ≤ o.1 ∧ o.1 ≤ c + 1200) ∨ c' ≤ c + 1200 ∨ withdrawnIn post r := by
   intro r hr
   have e1 := delayQP_addl; have e2 := delayQP_agg
-  rcases C12_on_wire delayQP_ok hpre hrun r hr with ⟨o, ho, h1, h2, h3⟩ | h
+  rcases C12_on_wire delayQP_ok hpre hrun r hr with ⟨o, ho, h1, h2, h3⟩ | h | h
   · exact Or.inl ⟨o, ho, h1, h2, by omega⟩
-  · exact Or.inr (by omega)
+  · exact Or.inr (Or.inl (by omega))
+  · exact Or.inr (Or.inr h)
 
 /-- the invariant behind both: in every reachable state there is exactly one armed timer iff the
 queue is non-empty, and it is due inside the head group's window and not in the past -/
@@ -118,6 +123,42 @@ theorem C12_one_timer {p : QP} (hp : p.ok) {c0 : Int} {evs : List QEv} {q' : Que
     obtain ⟨d, hd⟩ := hI.sk.nonempty_timer hne
     have := hI.sk.timer_le hd g.sk (List.mem_map_of_mem hg)
     exact ⟨d, hd, this.2, by simpa [Sk.deadline, Group.sk] using this.1⟩
+
+/-! ## registry changes while answers are queued (`async_remove_answers`, the repair of D5) -/
+
+/-- what a withdrawal does to the queue, exactly: afterwards no pending group carries a withdrawn record, neither as an answer
+nor as an additional; every other pending answer is still there, in a group with the same window; timer and group windows are
+untouched (so the bounds of `C12_window` / `C12_on_wire` go on for the records that stay) -/
+theorem C12_remove_exact (q : Queue) (rm : List RecId) :
+    (∀ g ∈ (q.removeRecords rm).groups, ∀ r ∈ rm, r ∉ g.answers.keys ∧ ∀ e ∈ g.answers, r ∉ e.2) ∧
+    (∀ g ∈ q.groups, ∀ r ∈ g.answers.keys, r ∉ rm → ∃ g' ∈ (q.removeRecords rm).groups, r ∈ g'.answers.keys ∧ g'.sa = g.sa ∧ g'.sb = g.sb) ∧
+    (q.removeRecords rm).timer = q.timer ∧ (q.removeRecords rm).groups.map Group.sk = q.groups.map Group.sk := by
+  refine ⟨?_, ?_, rfl, map_sk_removeRecords q rm⟩
+  · intro g' hg' r hr
+    simp only [Queue.removeRecords, List.mem_map] at hg'
+    obtain ⟨g, _, rfl⟩ := hg'
+    refine ⟨fun h => ((Dict.keys_withdraw _ _ _).mp h).2 hr, ?_⟩
+    intro e he hre
+    simp only [Dict.withdraw, List.mem_map, List.mem_filter] at he
+    obtain ⟨e0, _, rfl⟩ := he
+    simp only [List.mem_filter, Bool.not_eq_true', List.contains_eq_mem, decide_eq_false_iff_not] at hre
+    exact hre.2 hr
+  · intro g hg r hr hnr
+    refine ⟨{ g with answers := g.answers.withdraw rm }, ?_, (Dict.keys_withdraw _ _ _).mpr ⟨hr, hnr⟩, rfl, rfl⟩
+    simp only [Queue.removeRecords, List.mem_map]
+    exact ⟨g, hg, rfl⟩
+
+/-- a legal run with a registry change while answers are queued: records 1 and 3 (additional 2) are queued at 0, record 1 and
+its additional 2 are withdrawn at 10; the batch at 20 carries record 3 alone -/
+example : Run outQP {} 0 [.add 0 0 20 [(1, [2]), (3, [2])], .remove 10 [1, 2], .fire 20] {} 20 [(20, [(3, [])])] := by
+  refine Run.cons (e := .add 0 0 20 [(1, [2]), (3, [2])]) ?_ (Run.cons (e := .remove 10 [1, 2]) ?_ (Run.cons (e := .fire 20) ?_ (Run.nil _ _)))
+  · refine ⟨by decide, by decide, by decide, by decide, ?_⟩
+    intro d hd; cases hd
+  · refine ⟨by decide, ?_⟩
+    intro d hd
+    have h2 : some (20 : Int) = some d := hd
+    cases h2; decide
+  · exact ⟨by decide, by decide⟩
 
 /-! ## "aggregated with other pending answers" -/
 
@@ -384,7 +425,7 @@ theorem C12_aggregated_on_wire {h : Host} {clock : Int} {pkts : List Pkt} {addr 
     (hclock : c1 ≤ clock) (hstamp : ∀ first, pkts.head? = some first → first.now ≤ clock)
     (hdue : ∀ d, h.outQ.timer = some d → clock ≤ d)
     {post : List QEv} {q' : Queue} {c' : Int} {outs : List (Int × Dict)} (hpost : Run outQP r.host.outQ clock post q' c' outs) :
-    (∃ o ∈ outs, rid ∈ o.2.keys ∧ clock ≤ o.1 ∧ o.1 ≤ clock + 500) ∨ c' ≤ clock + 500 := by
+    (∃ o ∈ outs, rid ∈ o.2.keys ∧ clock ≤ o.1 ∧ o.1 ≤ clock + 500) ∨ c' ≤ clock + 500 ∨ withdrawnIn post rid := by
   obtain ⟨first, hf, _, _, hq1, _⟩ := assemble_spec hs hqa
   obtain ⟨d, hd1, hd2, heq⟩ := hq1.2 (Dict.isEmpty_false_of_mem hr)
   rw [heq] at hpost
@@ -402,7 +443,7 @@ theorem C12_protected_on_wire {h : Host} {clock : Int} {pkts : List Pkt} {addr p
     (hclock : c1 ≤ clock) (hstamp : ∀ first, pkts.head? = some first → first.now ≤ clock)
     (hdue : ∀ d, h.delayQ.timer = some d → clock ≤ d)
     {post : List QEv} {q' : Queue} {c' : Int} {outs : List (Int × Dict)} (hpost : Run delayQP r.host.delayQ clock post q' c' outs) :
-    (∃ o ∈ outs, rid ∈ o.2.keys ∧ clock ≤ o.1 ∧ o.1 ≤ clock + 1200) ∨ c' ≤ clock + 1200 := by
+    (∃ o ∈ outs, rid ∈ o.2.keys ∧ clock ≤ o.1 ∧ o.1 ≤ clock + 1200) ∨ c' ≤ clock + 1200 ∨ withdrawnIn post rid := by
   obtain ⟨first, hf, _, _, _, hq2⟩ := assemble_spec hs hqa
   obtain ⟨d, hd1, hd2, heq⟩ := hq2.2 (Dict.isEmpty_false_of_mem hr)
   rw [heq] at hpost
@@ -435,6 +476,7 @@ theorem C12_tc_silent {h : Host} {t : Int} {addr port dataId size : Nat} {hasQu 
   | idle lis => exact (perform_idle hp).2
   | defer lis d => exact (perform_defer hp).2
   | ready d => obtain ⟨t', he⟩ := decide_ready hd; cases he
+  | remove d recs => exact (perform_remove hp).1
   | answer lis pkts addr' port' =>
     exfalso
     simp only [Host.decide, hnt, Bool.false_eq_true, if_false] at hd
